@@ -64,6 +64,8 @@ type Client struct {
 	OnReply        func(c *Client, s *Sent)
 	Paused         bool
 	cur            *Sent
+	Refused        int
+	GaveUp         bool
 	LastSendAt     time.Time
 	readEv         string
 	MaxOutstanding int // 0 = unlimited pipelining
@@ -88,7 +90,13 @@ func (c *Client) Start() { c.rt.AddEvent("cl:"+c.Name+":connect", c.connect) }
 func (c *Client) connect() {
 	e, err := c.net.Connect(c.addr, "client-"+c.Name)
 	if err != nil {
-		// listener not (yet) there: retry a little later
+		// listener not (yet) there: retry a little later, give up after a while
+		c.Refused++
+		c.ConnectErr = err
+		if c.Refused > 60 {
+			c.GaveUp = true
+			return
+		}
 		c.seq++
 		c.rt.AddEventAt(time.Now().Add(50*time.Millisecond), fmt.Sprintf("cl:%s:connect#%d", c.Name, c.seq), c.connect)
 		return
